@@ -76,7 +76,7 @@ def emit(pairs):
         for r in imp["runs"]:
             flags += [not r["mutated_input_doc"], r["compile_repeatable"], r["export_pure"], r["evaluate_pure"],
                       r["evaluate_repeatable"], r["aggregate_pure"], r["aggregate_repeatable"],
-                      r.get("same_after_cache_eviction", True)]
+                      r.get("same_after_cache_eviction", True), r.get("derived_repeatable", True)]
         spec = [0 if f else 1 for f in flags]
         spec.append(0 if len(set(imp["shas"])) == 1 else 1)          # exported document identical in every process
         spec.append(0 if len(set(imp["eval_shas"])) == 1 else 1)
